@@ -78,6 +78,18 @@ BUILTINS = {
 }
 
 
+class _Logged(list):
+    """ext-call log that also feeds the chronological timeline."""
+
+    def __init__(self, it):
+        super().__init__()
+        self._it = it
+
+    def append(self, rec):
+        super().append(rec)
+        self._it.timeline.append(("ext", rec[0], rec))
+
+
 class Interp:
     MAX_DEPTH = 14
 
@@ -88,7 +100,8 @@ class Interp:
         self.conds = []  # (site, description, outcome)
         self.effects = []
         self.calls = []  # (qualname, args, kwargs, site, result)
-        self.ext_calls = []  # (name, args, kwargs, site, result)
+        self.ext_calls = _Logged(self)  # (name, args, kwargs, site, result)
+        self.timeline = []  # chronological ("call"|"ext", name, record)
         self.stack = []
         self.frames = []
         self.max_unroll = max_unroll
@@ -964,6 +977,7 @@ class Interp:
             result = self.stubs[func.qualname](self, func, env, node)
             self.calls.append([func.qualname, list(args), dict(kwargs), self.site(node), result, env, snapshot_terms(self, result),
                                {k: snapshot_terms(self, v) for k, v in env.items()}])
+            self.timeline.append(("call", func.qualname, self.calls[-1]))
             return result
         result = self._invoke(func, args, kwargs, node, fv)
         if unsqueezed:
@@ -980,6 +994,7 @@ class Interp:
         rec = [func.qualname, list(args), dict(kwargs), self.site(node) if len(self.frames) > 1 else "<entry>", None, dict(env)]
         rec_args = {k: snapshot_terms(self, v) for k, v in env.items()}
         self.calls.append(rec)
+        self.timeline.append(("call", func.qualname, rec))
         try:
             try:
                 self.exec_block(func.node.body)
